@@ -55,9 +55,10 @@ func buildScopeProgramX(hist0 []scEvent, xName string) []*model.N {
 		model.Fun("wx", []string{"v"}, model.ExprS(model.Asg(xName, model.Id("v")))),
 		model.Fun("dx", []string{"v"}, model.Var("x", model.Id("v")), model.Print(model.Id("x"))),
 		model.Fun("rq", nil, model.Print(model.Id("q"))),
+		model.Var("dd", model.Num(0)),
 	}
 	if xName != "x" {
-		top = []*model.N{top[1], top[2], top[4]}
+		top = []*model.N{top[1], top[2], top[4], top[5]}
 	}
 	type fr struct {
 		body  []*model.N
@@ -71,10 +72,41 @@ func buildScopeProgramX(hist0 []scEvent, xName string) []*model.N {
 		stack = stack[:len(stack)-1]
 		add(f.close(f.body)...)
 	}
+	var fnStack []string // names of the open functions, innermost last ("" for other constructs)
+	selfName := func() string {
+		for k := len(fnStack) - 1; k >= 0; k-- {
+			if fnStack[k] != "" {
+				return fnStack[k]
+			}
+		}
+		return "nofn"
+	}
 	for i, e := range hist {
 		K := model.Num(float64(10 * (i + 1)))
 		id := fmt.Sprintf("%d", i+1)
+		if e.Name == "@self" {
+			e.Name = selfName()
+		}
 		switch e.Op {
+		case "open", "openif", "openwh", "openfor":
+			fnStack = append(fnStack, "")
+		case "openfun":
+			fnStack = append(fnStack, "h"+id)
+		case "openfunp":
+			fnStack = append(fnStack, "g"+id)
+		case "close":
+			if len(fnStack) > 0 {
+				fnStack = fnStack[:len(fnStack)-1]
+			}
+		}
+		switch e.Op {
+		case "callself": // one re-entrant call of the innermost open function (the program-level counter dd stops it)
+			fn := selfName()
+			call := model.CallN(fn)
+			if strings.HasPrefix(fn, "g") {
+				call = model.CallN(fn, K)
+			}
+			add(model.If(model.Bin("<", model.Id("dd"), model.Num(1)), model.Block(model.ExprS(model.Asg("dd", model.Bin("+", model.Id("dd"), model.Num(1)))), model.ExprS(call)), nil))
 		case "decl":
 			add(model.Var(e.Name, K))
 		case "declL": // comma-list declaration
@@ -228,6 +260,19 @@ func scopeWalk(c *fw.Ctx, sig, xName string, maxLen, maxDepth int) {
 				continue
 			}
 			try(scEvent{"call", f}, nil)
+		}
+		inFn := false
+		for _, k := range opens {
+			if k == "openfun" || k == "openfunp" {
+				inFn = true
+			}
+		}
+		if inFn && !builtinX {
+			// the enclosing function's own name used as a variable, and one re-entrant call
+			try(scEvent{"read", "@self"}, nil)
+			try(scEvent{"asg", "@self"}, nil)
+			try(scEvent{"decl", "@self"}, nil)
+			try(scEvent{"callself", ""}, nil)
 		}
 		for _, n := range []string{"x", "y"} {
 			cl := fmt.Sprintf("c%d", len(hist)+1)
